@@ -29,7 +29,11 @@ type synthIn struct {
 	NNFirst bool   `json:"nnfirst"` // first root field is non-null
 	Protect []int  `json:"protect"` // root field numbers (1-based)
 	Deny    []int  `json:"deny"`
-	Mode    string `json:"mode"` // none | post | batch
+	Mode    string `json:"mode"` // none | post | batch | both
+	// kind "collide": two objects with one leaf each, coordinates that collide when concatenated without a separator
+	Objects  []collideCoord `json:"objects"`
+	ProtectC []string       `json:"protectc"`
+	DenyC    []string       `json:"denyc"`
 }
 
 type synthSource struct {
@@ -182,7 +186,11 @@ func runSynth(in, out string) {
 		if err := json.Unmarshal(line, c); err != nil {
 			fatal(err)
 		}
-		w.write(runSynthCase(resolver, c))
+		if c.Kind == "collide" {
+			w.write(runCollideCase(resolver, c))
+		} else {
+			w.write(runSynthCase(resolver, c))
+		}
 		n++
 	})
 	fmt.Fprintf(os_stderr(), "authz: %d synthetic plans\n", n)
